@@ -31,12 +31,21 @@ def fresh(x):
     return x
 
 
-def tfreeze(x):
-    """Canonical hashable form that keeps types apart (0 is not False) and ignores key order."""
+def tfreeze(x, _stack=()):
+    """Canonical hashable form that keeps types apart (0 is not False) and ignores key order.
+    A container that contains itself (possible only when the code under test aliased instead of
+    copying) is cut with a ("cycle",) marker, so that such a result is *compared* and reported as
+    a difference instead of crashing the harness."""
     if type(x) is dict:
-        return ("d",) + tuple(sorted((k, tfreeze(v)) for k, v in x.items()))
+        if id(x) in _stack:
+            return ("cycle",)
+        st = _stack + (id(x),)
+        return ("d",) + tuple(sorted((k, tfreeze(v, st)) for k, v in x.items()))
     if type(x) is list:
-        return ("l",) + tuple(tfreeze(v) for v in x)
+        if id(x) in _stack:
+            return ("cycle",)
+        st = _stack + (id(x),)
+        return ("l",) + tuple(tfreeze(v, st) for v in x)
     return (type(x).__name__, x)
 
 
@@ -44,6 +53,8 @@ def containers(x, acc=None):
     """id -> object for every dict and list reachable from x (x included)."""
     if acc is None:
         acc = {}
+    if id(x) in acc:
+        return acc
     if type(x) is dict:
         acc[id(x)] = x
         for v in x.values():
